@@ -165,7 +165,8 @@ class TaintInterp(Interp):
         @stub
         def pos(interp, a, k, _n=n):
             return Unknown(f"m{_n}.pos")
-        return Obj(None, {"group": group, "groups": groups, "start": pos, "end": pos, "span": pos}, tag=f"match{n}")
+        rx = Obj(None, {"groups": Unknown(f"match{n}.re.groups", kind="int"), "pattern": Unknown(f"match{n}.re.pattern", kind="str")}, tag=f"pattern{n}")
+        return Obj(None, {"group": group, "groups": groups, "start": pos, "end": pos, "span": pos, "re": rx, "string": Unknown(f"match{n}.string", kind="str")}, tag=f"match{n}")
 
     def regex_call(self, fname, pattern, rest, kwargs):
         """re.<fname>(pattern, *rest) / compiled.<fname>(*rest)"""
